@@ -9,10 +9,12 @@ pub struct Issue {
     pub prop: &'static str,
     pub rule: &'static str,
     pub msg: String,
+    /// Structural detail of the failing site (part of the known-finding signature), may be empty.
+    pub tag: &'static str,
 }
 
 fn issue(out: &mut Vec<Issue>, prop: &'static str, rule: &'static str, msg: String) {
-    out.push(Issue { prop, rule, msg });
+    out.push(Issue { prop, rule, msg, tag: "" });
 }
 
 const SPECIAL: [&str; 5] = ["departure", "arrival", "break", "reload", "recharge"];
@@ -156,7 +158,8 @@ pub fn check_partition(m: &PModel, s: &SSolution, out: &mut Vec<Issue>, probes: 
             }
         }
         if job_acts == 0 {
-            issue(out, P, "empty-tour", format!("tour {ti} ({}) serves no job", t.vehicle_id));
+            let tag = if breaks > 0 || !reloads.is_empty() { "marker-only-tour" } else { "" };
+            out.push(Issue { prop: P, rule: "empty-tour", msg: format!("tour {ti} ({}) serves no job ({breaks} breaks, {} reloads)", t.vehicle_id, reloads.len()), tag });
         }
     }
 
@@ -261,8 +264,108 @@ pub struct TourReplay {
     pub duration: f64,
 }
 
-#[allow(clippy::too_many_lines)]
+/// Which task of a multi-task job an activity stands for is not observable from the document when tasks
+/// share kind and location. All location/kind-consistent assignments are enumerated (bounded) and the
+/// interpretation with the fewest issues is reported: an alarm is raised only when no interpretation fits.
 pub fn check_tour(m: &PModel, ti: usize, t: &STour, out: &mut Vec<Issue>, probes: &mut Probes) -> Option<TourReplay> {
+    let combos = enumerate_assignments(m, t);
+    let mut best: Option<(Vec<Issue>, Probes, Option<TourReplay>)> = None;
+    for assign in combos.iter() {
+        let mut o = vec![];
+        let mut p = Probes::default();
+        let r = check_tour_inner(m, ti, t, assign, &mut o, &mut p);
+        let key = |v: &Vec<Issue>| (v.iter().filter(|i| i.prop == "C01").count(), v.len());
+        let better = match &best {
+            None => true,
+            Some((bo, _, _)) => key(&o) < key(bo),
+        };
+        if better {
+            let done = o.is_empty();
+            best = Some((o, p, r));
+            if done {
+                break;
+            }
+        }
+    }
+    let (o, p, r) = best?;
+    out.extend(o);
+    probes.add(&p);
+    r
+}
+
+fn enumerate_assignments(m: &PModel, t: &STour) -> Vec<BTreeMap<usize, usize>> {
+    // flat index of every activity in the tour
+    let mut per_job: BTreeMap<&str, Vec<(usize, &str, Option<usize>)>> = BTreeMap::new();
+    let mut idx = 0usize;
+    for st in &t.stops {
+        for a in &st.acts {
+            if !SPECIAL.contains(&a.job_id.as_str()) {
+                per_job.entry(a.job_id.as_str()).or_default().push((idx, a.kind.as_str(), a.loc.or(st.loc)));
+            }
+            idx += 1;
+        }
+    }
+    let mut combos: Vec<BTreeMap<usize, usize>> = vec![BTreeMap::new()];
+    for (id, acts) in per_job {
+        let job = match m.job(id) {
+            Some(j) if j.tasks.len() > 1 && j.tasks.len() == acts.len() && acts.len() <= 4 => j,
+            _ => continue,
+        };
+        // all permutations of tasks over activities which respect kind and location
+        let n = acts.len();
+        let mut perms: Vec<Vec<usize>> = vec![];
+        let mut cur: Vec<usize> = vec![];
+        fn rec(k: usize, n: usize, acts: &[(usize, &str, Option<usize>)], job: &PJob, cur: &mut Vec<usize>, out: &mut Vec<Vec<usize>>) {
+            if out.len() >= 24 {
+                return;
+            }
+            if k == n {
+                out.push(cur.clone());
+                return;
+            }
+            for tk in 0..n {
+                if cur.contains(&tk) {
+                    continue;
+                }
+                let task = &job.tasks[tk];
+                if task.kind.name() == acts[k].1 && task.places.iter().any(|p| p.loc == acts[k].2) {
+                    cur.push(tk);
+                    rec(k + 1, n, acts, job, cur, out);
+                    cur.pop();
+                }
+            }
+        }
+        rec(0, n, &acts, job, &mut cur, &mut perms);
+        if perms.len() <= 1 {
+            if let Some(p) = perms.first() {
+                for c in combos.iter_mut() {
+                    for (k, tk) in p.iter().enumerate() {
+                        c.insert(acts[k].0, *tk);
+                    }
+                }
+            }
+            continue;
+        }
+        let mut next = vec![];
+        'outer: for c in &combos {
+            for p in &perms {
+                let mut c2 = c.clone();
+                for (k, tk) in p.iter().enumerate() {
+                    c2.insert(acts[k].0, *tk);
+                }
+                next.push(c2);
+                if next.len() >= 96 {
+                    break 'outer;
+                }
+            }
+        }
+        combos = next;
+    }
+    combos
+}
+
+#[allow(clippy::too_many_lines)]
+fn check_tour_inner(m: &PModel, ti: usize, t: &STour, assign: &BTreeMap<usize, usize>, out: &mut Vec<Issue>, probes: &mut Probes) -> Option<TourReplay> {
     const F: &str = "C01";
     const S: &str = "C03";
     let (vt, shift) = m.find_vehicle(&t.type_id, &t.vehicle_id, t.shift_index)?;
@@ -333,17 +436,20 @@ pub fn check_tour(m: &PModel, ti: usize, t: &STour, out: &mut Vec<Issue>, probes
     if m.order_is_hard() {
         let mut prev: Option<i64> = None;
         let mut used_tasks: BTreeMap<&str, Vec<bool>> = BTreeMap::new();
-        for f in &job_acts {
+        for (fi, f) in flat.iter().enumerate() {
+            if SPECIAL.contains(&f.act.job_id.as_str()) {
+                continue;
+            }
             if let Some(job) = m.job(&f.act.job_id) {
-                // order of the matched task: first unused task of that kind at that location
                 let used = used_tasks.entry(job.id.as_str()).or_insert_with(|| vec![false; job.tasks.len()]);
                 let loc = f.act.loc.or(f.stop.loc);
-                let idx = job
-                    .tasks
-                    .iter()
-                    .enumerate()
-                    .position(|(i, task)| !used[i] && task.kind.name() == f.act.kind && task.places.iter().any(|p| p.loc == loc))
-                    .or_else(|| job.tasks.iter().enumerate().position(|(i, task)| !used[i] && task.kind.name() == f.act.kind));
+                let idx = assign.get(&fi).copied().or_else(|| {
+                    job.tasks
+                        .iter()
+                        .enumerate()
+                        .position(|(i, task)| !used[i] && task.kind.name() == f.act.kind && task.places.iter().any(|p| p.loc == loc))
+                        .or_else(|| job.tasks.iter().enumerate().position(|(i, task)| !used[i] && task.kind.name() == f.act.kind))
+                });
                 if let Some(idx) = idx {
                     used[idx] = true;
                     let key = job.tasks[idx].order.filter(|o| *o > 0).unwrap_or(i64::MAX);
@@ -461,7 +567,11 @@ pub fn check_tour(m: &PModel, ti: usize, t: &STour, out: &mut Vec<Issue>, probes
                     let job = &m.jobs[*ji];
                     let used = used_tasks.entry(job.id.clone()).or_insert_with(|| vec![false; job.tasks.len()]);
                     for (tk, task) in job.tasks.iter().enumerate() {
-                        if used[tk] || task.kind.name() != a.kind {
+                        if let Some(fixed) = assign.get(&i) {
+                            if *fixed != tk {
+                                continue;
+                            }
+                        } else if used[tk] || task.kind.name() != a.kind {
                             continue;
                         }
                         for p in &task.places {
